@@ -183,3 +183,100 @@ class Manager_on_task_report_stopping:
             out["no-decision-off-own-levels"] = result["task_continues"] == True and result["milestone_reached"] == False  # noqa: E712
             out["frame"] = unchanged(mg1._rung_systems, mg0._rung_systems)
         return out
+
+
+# -- where the rung levels and promotion quantiles come from -----------------------------------------------------------------
+
+SH_UTILS = "syne_tune.optimizer.schedulers.utils.successive_halving"
+declare_class("FreshRungSystem", HB_STOP + ":StoppingRungSystem", dict())
+
+
+@contract(HB_STOP + ":RungSystem.__init__", props=("C03", "C04"))
+class RungSystem_init:
+    """rung j (counted from the top) carries level r_j together with ITS OWN quantile q_j"""
+
+    params = dict(self=Obj("FreshRungSystem"), rung_levels=List(Int), promote_quantiles=List(Real), metric=Lit("loss"), mode=Enum("min", "max"), resource_attr=Lit("epoch"), max_t=Int)
+    unbounded = False
+    shapes = [{"rung_levels": n, "promote_quantiles": n} for n in (0, 1, 2, 3)]
+
+    def requires(s):
+        n = len(s.rung_levels)
+        return {
+            "increasing-below-max": forall(range(0, n), lambda i: (s.rung_levels[i] < s.rung_levels[i + 1] if i + 1 < n else s.rung_levels[i] < s.max_t) and s.rung_levels[i] >= 1),
+            "quantiles-in-(0,1)": forall(range(0, n), lambda i: 0 < s.promote_quantiles[i] and s.promote_quantiles[i] < 1),
+        }
+
+    def ensures(old, s, result):
+        n = len(old.rung_levels)
+        rungs = s.self._rungs
+        return {
+            "one-rung-per-level": len(rungs) == n and s.self.num_rungs == n,
+            "top-rung-first": forall(range(0, n), lambda i: rungs[i].level == old.rung_levels[n - 1 - i]) if len(rungs) == n else True,
+            "level-keeps-its-own-quantile": forall(range(0, n), lambda i: req(rungs[i].prom_quant, old.promote_quantiles[n - 1 - i])) if len(rungs) == n else True,
+            "rungs-start-empty": forall(range(0, n), lambda i: len(rungs[i]) == 0) if len(rungs) == n else True,
+            "max-resource-kept": s.self._max_t == old.max_t,
+        }
+
+
+@contract(SH_UTILS + ":successive_halving_rung_levels", props=("C03", "C04"))
+class RungLevels_reduction_factor:
+    label = "successive_halving_rung_levels(reduction factor)"
+    params = dict(rung_levels=NoneT, grace_period=Int, reduction_factor=Real, rung_increment=NoneT, max_t=Int)
+    unbounded = False
+    shapes = [{}]
+    raises = {"AssertionError": True}
+
+    def requires(s):
+        return {"small": 1 <= s.grace_period and s.grace_period < s.max_t and s.max_t <= 30 and s.reduction_factor >= 2}
+
+    def ensures(old, s, result):
+        n = len(result)
+        g, rf = old.grace_period, old.reduction_factor
+        return {
+            "at-least-the-grace-period": n >= 1 and result[0] == g,
+            # r_k = r_min * eta^k rounded to the nearest integer
+            "levels-are-the-rounded-powers": forall(range(0, n), lambda k: -0.5 <= result[k] - g * real_pow(rf, k) and result[k] - g * real_pow(rf, k) <= 0.5),
+            "all-below-max": forall(range(0, n), lambda k: result[k] < old.max_t),
+            # the next power reaches max_t (or rounds to max_t itself and was stripped for that reason)
+            "no-level-missing": g * real_pow(rf, n) >= old.max_t or (old.max_t - g * real_pow(rf, n) <= 0.5 and g * real_pow(rf, n + 1) >= old.max_t),
+        }
+
+
+@contract(SH_UTILS + ":successive_halving_rung_levels", props=("C03", "C04"))
+class RungLevels_increment:
+    label = "successive_halving_rung_levels(rung increment)"
+    params = dict(rung_levels=NoneT, grace_period=Int, reduction_factor=NoneT, rung_increment=Int, max_t=Int)
+    unbounded = False
+    shapes = [{}]
+    raises = {"AssertionError": True}
+
+    def requires(s):
+        return {"small": 1 <= s.grace_period and s.grace_period < s.max_t and s.max_t <= 12 and s.rung_increment >= 1 and s.rung_increment <= 12}
+
+    def ensures(old, s, result):
+        n = len(result)
+        return {
+            "arithmetic-levels": forall(range(0, n), lambda k: result[k] == old.grace_period + k * old.rung_increment),
+            "all-below-max": forall(range(0, n), lambda k: result[k] < old.max_t),
+            "no-level-missing": old.grace_period + n * old.rung_increment >= old.max_t,
+        }
+
+
+@contract(SH_UTILS + ":successive_halving_rung_levels", props=("C03", "C04"))
+class RungLevels_explicit:
+    label = "successive_halving_rung_levels(explicit list)"
+    params = dict(rung_levels=List(Int), grace_period=Int, reduction_factor=Opt(Real), rung_increment=Opt(Int), max_t=Int)
+    unbounded = False
+    shapes = [{"rung_levels": n} for n in (2, 3)]
+    raises = {"AssertionError": True}
+
+    def requires(s):
+        return True
+
+    def ensures(old, s, result):
+        n = len(old.rung_levels)
+        strip = old.rung_levels[n - 1] == old.max_t
+        return {
+            "the-given-levels-without-max_t": len(result) == (n - 1 if strip else n) and forall(range(0, len(result)), lambda k: result[k] == old.rung_levels[k]),
+            "all-below-max": forall(range(0, len(result)), lambda k: result[k] < old.max_t),
+        }
